@@ -73,6 +73,7 @@ func init() {
 			{"loop-accumulator", "a boolean that summarises a loop (some element needs X / all elements satisfy Y) and is read after it is accumulated monotonically - set to a constant, combined with its previous value, assigned under a test of itself, or followed by leaving the loop - never overwritten by the value computed for the current element only", func(c *Ctx) { ruleLoopAccumulator(c, "pkg/core/mpt", "pkg/core/stateroot", "pkg/core") }},
 			{"dead-update", "no struct-typed local is assigned and field-updated without ever being read, passed on or returned (a modified copy that is lost while the stale original goes on being used)", func(c *Ctx) { ruleDeadUpdate(c, "pkg/core/mpt", "pkg/core/stateroot", "pkg/core") }},
 			{"check-all-loop", "a loop that rejects on a property of each element with an error return is not left early with a break (the elements after it would escape the check)", func(c *Ctx) { ruleCheckAllLoop(c, "pkg/core/mpt", "pkg/core/stateroot", "pkg/core") }},
+			{"context-height", "natives and system calls take the current height and tip hash from the execution context (the height the execution is made for), never from the live ledger: only interop.Context's own accessors read ic.Chain's height", ruleContextHeight},
 			{"proof-key", "VerifyProof walks from NewHashNode(root) over a store of its own in strict mode, and stores every proof element under the double-SHA256 of that very element", ruleProofKey},
 			{"historic-root", "the historic VM's trie store is rooted at GetStateRoot(b.Index-1) of the block it executes in, over a private cache layer, and refuses garbage-collected heights", ruleHistoricRoot},
 			{"mpt-reader", "Trie methods read node records only through the mode-aware getFromStore (a retained root keeps every key contract storage holds, in every trie mode)", ruleMPTReader},
@@ -273,6 +274,7 @@ func init() {
 			{"swap-order", "a failed flush puts the old maps back merged with everything written during the flush (both twins), so that however often and whenever the node flushes - successfully or not - no block's storage changes are lost", ruleSwapOrder},
 			{"twin-maps", "whatever a store does to one of its twin maps (mem, stor) as a whole it does to the other in the same or in a twin statement: contract storage is flushed, merged and restored together with everything else", ruleTwinMaps},
 			{"cache-latest", "whatever fills the RoleManagement cache from storage asks for the newest record (MaxUint32), never for the record in force at the current height: a rebuilt cache equals the cache of the node that executed the designating block", ruleCacheLatest},
+			{"context-height", "natives and system calls take the current height and tip hash from the execution context (the height the execution is made for), never from the live ledger: only interop.Context's own accessors read ic.Chain's height", ruleContextHeight},
 			{"cache-ro", "no write (field, element, delete/clear/copy, or through a parameter-mutating callee) through a native cache obtained with GetROCache, on any path (isCacheRW idiom handled by boolean correlation)", ruleCacheRO},
 			{"det-sources", "no wall clock, random source, environment or scheduler introspection is read in the closure of block processing except for values that flow only into logging/metrics", ruleDetSources},
 			{"det-maprange", "every map iteration in the closure of block processing is order-insensitive (keyed updates, or collected then sorted) or tabled with a reason", ruleDetMapRange},
